@@ -1,6 +1,7 @@
 import Model.Codec
 import Model.DomainCodec
 import Model.C01
+import Model.Generated.Phases
 open Lean Codec Dom DomainCodec C01
 
 def handle (j : Json) : Except String Json := do
@@ -24,6 +25,9 @@ def handle (j : Json) : Except String Json := do
       ("slack", jRatMat (xs.map fun x => d.cons.map fun k => dot (ohWeights d.comps k.weights) x - k.rhs)),
       ("mass", jRatMat (xs.map fun x => d.cons.map fun k =>
         (List.zipWith (fun w v => rabs (w * v)) (ohWeights d.comps k.weights) x).foldl (· + ·) (rabs k.rhs)))])
+  | "convopt" =>
+    let ints ← int j "ints"; let cats ← int j "cats"
+    pure (Json.mkObj [("option", Json.str ((toString (repr (Gen.get_discrete_conversion_option ints cats))).splitOn ".").getLast!)])
   | "tasks" =>
     let opts ← rats j "options"; let costs ← rats j "costs"
     pure (Json.mkObj [("snapped", jRats (taskColumn opts costs))])
